@@ -49,6 +49,16 @@ CHECKS = {
         text="Translation validation per design: every design of the stream goes through goa's real DSL, eval and the gen + example generators in a fresh process (panic, error, timeout captured) and every emitted package is type-checked and built with `go build ./...` against /repo; the stream visits every cell of the first-order feature table systematically and then combines features at random. Proved core in Lean: codegen.NameScope.Unique/HashedUnique (hand model, differential correspondence): the probing loop always terminates with a fresh name (pigeonhole over the finitely many reserved names), every history of Unique calls returns pairwise distinct names, HashedUnique is a stable injective function of the hash.",
         note="The universal claim 'all accepted designs compile' is not a Lean theorem: it is decided per program by the Go type checker. Streaming, multipart, file servers and gRPC are not generated yet; goa.design/clue is replaced by a stub module (example mains are checked against its signatures only).",
         ref="DESIGN.md §3 C01", technique="translation validation (Go type checker per generated program) + Lean 4 proof of the identifier-allocation core with differential correspondence"),
+    "C02": dict(
+        category="proof",
+        text="Lean theorems (Props/C02.lean): for every integer kind and every value in its range parse(format n) = n, booleans likewise, out-of-range text is refused (no wrap-around), formatting is injective, and the location partition is exact (an attribute is in the body iff no path/query/header/cookie mapping names it); the wire strings the real generated clients produce are compared with the model's format and parsed back. End to end: per design goa generates client and server, the glue links them, and valid payloads from a type-directed boundary generator are sent through the generated client; the value the service method received must equal the value sent (seven classes of genuine deviations are recorded as known findings: unescaped path values, cookie octets, zero values of defaulted attributes, empty strings outside bodies).",
+        note="The end-to-end claim for all designs is decided by executing the generated code (per design and value), not by a Lean theorem about the generators; JSON codec, net/http header/cookie sanitising are library code; streaming not generated yet; floats restricted to dyadic rationals.",
+        ref="DESIGN.md §3 C02/C03", technique="Lean 4 proof of the string transport and location partition + execution of generated client/server pairs (translation validation by round trip)"),
+    "C03": dict(
+        category="proof",
+        text="Same exchanges as C02, response direction: the result the stub service returns must equal what the generated client hands to the caller, with the designed status code and exactly one WriteHeader; Lean part shared with C02 (string transport of header values, partition).",
+        note="The end-to-end claim for all designs is decided by executing the generated code (per design and value), not by a Lean theorem about the generators; JSON codec, net/http header/cookie sanitising are library code; streaming not generated yet; floats restricted to dyadic rationals.",
+        ref="DESIGN.md §3 C02/C03", technique="Lean 4 proof of the string transport and location partition + execution of generated client/server pairs (translation validation by round trip)"),
 }
 
 m = {
